@@ -4,7 +4,7 @@ import ast
 from ..core.model import AnchorError
 from ..core.cfg import walk_shallow, cfg_of
 from ..core.facts import U, atom_expr
-from ..engine import fn_name, kwarg, local_defs, dict_items, returns_of, stmts_in, contains_call
+from ..engine import argn, fn_name, kwarg, local_defs, dict_items, returns_of, stmts_in, contains_call
 from . import common
 
 EXPLANATION = (
@@ -206,9 +206,9 @@ def s3(ctx, rep):
     flag = None
     for st in walk_shallow(f.node):
         if isinstance(st, ast.Assign) and isinstance(st.value, ast.Call) and fn_name(st.value) == "get" \
-                and st.value.args and isinstance(st.value.args[0], ast.Constant) and st.value.args[0].value == "ignore_data":
+                and st.value.args and isinstance(argn(st.value, 0), ast.Constant) and argn(st.value, 0).value == "ignore_data":
             flag = st.targets[0].id
-            dflt = st.value.args[1] if len(st.value.args) > 1 else None
+            dflt = argn(st.value, 1) if len(st.value.args) > 1 else None
             if not (isinstance(dflt, ast.Constant) and dflt.value is False):
                 rep.bad("S3", "agreement", "HyperbandScheduler.on_trial_result: ignore_data default", f, st,
                         "default of task_info.get('ignore_data') is not False")
@@ -263,7 +263,7 @@ def _lur_and_resource(f):
     from ..engine import vars_assigned_from
     lur = vars_assigned_from(f, lambda v: isinstance(v, ast.Attribute) and v.attr == "largest_update_resource")
     res = vars_assigned_from(f, lambda v: isinstance(v, ast.Call) and fn_name(v) == "int" and v.args
-                             and isinstance(v.args[0], ast.Subscript) and U(v.args[0].slice) == "self._resource_attr")
+                             and isinstance(argn(v, 0), ast.Subscript) and U(argn(v, 0).slice) == "self._resource_attr")
     if len(set(lur)) != 1 or len(set(res)) != 1:
         raise AnchorError(f"{f.short}: locals for largest_update_resource / the reported resource not identified ({lur}, {res})")
     return lur[0], res[0]
@@ -347,7 +347,7 @@ def s5_pending_only_if_continues(ctx, rep):
         raise AnchorError(f"_update_searcher: {n} non-empty assignments of the pending levels (3 confirmed)")
 
 
-def s6b(ctx, rep):
+def s6b(ctx, rep, clause="S6"):
     """found thin by the generic mutation audit: the filtered list replaces the pending list whenever something was removed"""
     from .common import require_guard
     P = ctx.P
@@ -358,7 +358,7 @@ def s6b(ctx, rep):
         (isinstance(n.ast, ast.Assign) and any(U(t).endswith(".pending_evaluations") for t in n.ast.targets)))]
     if not repl:
         raise AnchorError("filter_pending_evaluations: mutation of pending_evaluations not found")
-    require_guard(ctx, rep, "S6", f, "ModelStateTransformer.filter_pending_evaluations: the pending list is replaced | the filter removed something", repl,
+    require_guard(ctx, rep, clause, f, "ModelStateTransformer.filter_pending_evaluations: the pending list is replaced | the filter removed something", repl,
                   [("len(filtered) != len(pending)", lambda a: a[0] == "eq" and a[3] is False and "len(" in a[1] and "len(" in a[2])],
                   "the filtered list is thrown away exactly when it differs: pending entries of failed / finished trials are never removed")
 
